@@ -153,6 +153,7 @@ def run(tier):
             continue
         sh, v = shapes[(a, t)], e['desc']
         values.append((a, t, v))
+        del T.CR_NORMALISED[:]
         try:
             if a == 'json':
                 tree = parse_json(text)
@@ -173,10 +174,10 @@ def run(tier):
             continue
         if why:
             cls = re.sub(r'/\d+', '/#', why.split(':')[0])
-            if a == 'xml' and 'string' in why and '\\r' in why:
-                ck.violation('xml/writer/carriage-return-written-raw', dict(wit, difference=why), 'XML text containing U+000D is written unescaped; a conforming parser normalises it to U+000A: ' + why)
-            else:
-                ck.violation('%s/writer/model/%s%s' % (a, t, cls), dict(wit, difference=why), 'parsed data model differs: ' + why)
+            ck.violation('%s/writer/model/%s%s' % (a, t, cls), dict(wit, difference=why), 'parsed data model differs: ' + why)
+        elif a == 'xml' and T.CR_NORMALISED:
+            ck.violation('xml/writer/carriage-return-written-raw', dict(wit, difference=repr(T.CR_NORMALISED[0][:80])),
+                         'XML text containing U+000D is written unescaped; a conforming parser normalises it to U+000A: %r' % T.CR_NORMALISED[0][:60])
     ck.cov['configuration_cells_part_a'] = len(cells)
     # ---- part B: independent renderings of the data model
     lines, meta = [], {}
